@@ -4030,4 +4030,61 @@ pub mod verif {
     ) -> Result<Option<Duration>, OperationError> {
         txn.get_idlayer().get_db_ts_max()
     }
+
+    /// Raw sqlite dump of a two-column table (e.g. `idx_name2uuid`, columns `name`,`uuid`).
+    pub fn raw_table(
+        be: &mut BackendReadTransaction<'_>,
+        table: &str,
+        kcol: &str,
+        vcol: &str,
+    ) -> Result<Vec<(String, Vec<u8>)>, OperationError> {
+        crate::be::idl_arc_sqlite::verif::raw_table(be.get_idlayer(), table, kcol, vcol)
+    }
+
+    /// The id list of one index key as searches see it (through the idl cache).
+    /// `Ok(None)` = the index table does not exist.
+    pub fn cached_idl(
+        be: &mut BackendReadTransaction<'_>,
+        attr: &Attribute,
+        itype: IndexType,
+        idx_key: &str,
+    ) -> Result<Option<Vec<u64>>, OperationError> {
+        crate::be::idl_arc_sqlite::verif::cached_idl(be.get_idlayer(), attr, itype, idx_key)
+            .map(|o| o.map(|idl| idl.into_iter().collect()))
+    }
+
+    /// The live index metadata (attribute, index type) of this transaction.
+    pub fn idxmeta_keys<T: BackendTransaction>(be: &T) -> Vec<(Attribute, IndexType)> {
+        let mut v: Vec<(Attribute, IndexType)> = be
+            .get_idxmeta_ref()
+            .idxkeys
+            .keys()
+            .map(|k| (k.attr.clone(), k.itype))
+            .collect();
+        v.sort();
+        v
+    }
+
+    /// (db_s_uuid, db_d_uuid, db_ts_max, key handles as JSON) as stored.
+    #[allow(clippy::type_complexity)]
+    pub fn db_ids<T: BackendTransaction>(
+        be: &mut T,
+    ) -> Result<(Option<Uuid>, Option<Uuid>, Option<Duration>, String), OperationError> {
+        let l = be.get_idlayer();
+        let kh = l.get_key_handles()?;
+        let kh = serde_json::to_string(&kh).map_err(|_| OperationError::SerdeJsonError)?;
+        Ok((
+            l.get_db_s_uuid()?,
+            l.get_db_d_uuid()?,
+            l.get_db_ts_max()?,
+            kh,
+        ))
+    }
+
+    /// Decode the value column of `idx_uuid2spn`.
+    pub fn decode_spn(raw: &[u8]) -> Option<Value> {
+        serde_json::from_slice::<crate::be::dbentry::DbIdentSpn>(raw)
+            .ok()
+            .map(Value::from)
+    }
 }
